@@ -79,7 +79,10 @@ REAL_STUB = {
 
 NAME_PIECES = ["a", "conf 1", "dä", "x-y_z", "p.q", "t~1", "a+b", "r&s",
                "u;v", "[w]", "é ü", "日本", "B", "0",
-               "a b c", "m..n", "~", "+", "x]", "[", "ß&æ;"]
+               "a b c", "m..n", "~", "+", "x]", "[", "ß&æ;",
+               # letters written in decomposed form / compatibility
+               # characters: a file system keeps the bytes it was given
+               "e\u0301t", "o\u0308", "\u212bng", "\ufb01le", "\u1e9b\u0323"]
 
 
 # ---------------------------------------------------------------------------
